@@ -28,7 +28,7 @@ def suite(wt):
 def main():
     for sid in sys.argv[1:]:
         pid = sid.split('-')[0]
-        wt = '/tmp/wt/' + pid
+        wt = os.environ.get('WT_ROOT', '/tmp/wt2') + '/' + pid
         src = os.path.join(wt, '_out', sid)
         res = {'id': sid}
         sh('git checkout -- tracklib', wt)
